@@ -58,7 +58,7 @@ fi
 case "$cross" in DISAGREE*) echo "  UNDECIDED $id cross-toolchain: $cross"; echo "VIOLATION property=$id replay=$OUT/evidence/$id.json"; rc=1;; esac
 # (b) sensitivity sweep (evidence only)
 applied=0; detected=0; missed=""
-for pf in "$VERIF"/mutants/"$id"/*.patch "$VERIF"/seeded/"$id"?/patch.diff; do
+for pf in "$VERIF"/mutants/"$id"/*.patch "$VERIF"/seeded/"$id"[a-z]*/patch.diff; do
   [ -f "$pf" ] || continue
   S="$T/sweep"; rm -rf "$S"; mkdir -p "$S/repo" "$S/verif/evidence"
   rsync -a --exclude .git "$REPO/" "$S/repo/"
